@@ -59,8 +59,9 @@ func genStandard(env *Env, prop string, opaque bool, extra func(ex *symex.Exec, 
 			for _, c := range cases {
 				ex := symex.NewExec(env.Prog, env.CS, env.Tables)
 				ex.OpaqueStrings = opaque
+				ex.FuncTables = env.FuncTables
 				ex.SetPrefix("")
-				handled := false
+				handled := fc.Flags["trusted"] || fc.Flags["inline"]
 				if extra != nil {
 					sub := newGen()
 					handled = extra(ex, fc, sub)
@@ -179,6 +180,20 @@ func init() {
 			g.Assumptions = []string{
 				"the denotation table (//@ denot lines) restates apparmor.d(5): which fields are qualifier, subject and permission sets and where an empty set means all",
 				"strings are compared by equality only in these obligations (opaque mode)",
+			}
+			return g
+		},
+	})
+}
+
+func init() {
+	Register(&Property{
+		ID:       "C16",
+		Packages: []string{"pkg/aa"},
+		Generate: func(env *Env) *Gen {
+			g := genStandard(env, "C16", true, nil)
+			g.Unverified = []string{
+				"path generalisation (regResolveLogs, 60 regexes) still matching the recorded name under the shipped tunables",
 			}
 			return g
 		},
